@@ -151,13 +151,14 @@ package interp
 // into the parameter slot i of a new frame (after the result slots, and after the receiver for a method
 // value); the results handed back are the first numRet slots of that frame, in order.
 //@ lit genFunctionWrapper calls:runCfg (in) (out)
-//@   props C07
+//@   props C07 C08
 //@   opt safety = off
 //@   opt loops = havoc
 //@   opt fn-values = pure
 //@   opt opaque-calls = *
 //@   opt opaque-havoc = none
 //@   requires [assume] f != nil && n != nil && def != nil && def.typ != nil
+//@   ensures [local:fr] one-frame-per-call: fresh(fr)
 //@   ensures [local:fr] results-are-the-leading-slots-of-the-callee-frame: len(out) == numRet && forall(k, 0, numRet, out[k] == fr.data[k])
 //@   loop 3
 //@   step [next] argument-i-is-copied-into-parameter-slot-i: !isInterfaceSrc(def.typ.arg[i]) || isEmptyInterface(def.typ.arg[i]) ==> rvIface(d[i]) == rvIface(arg) && rvInt(d[i]) == rvInt(arg) && rvString(d[i]) == rvString(arg)
@@ -194,3 +195,25 @@ package interp
 //@   requires [assume] f != nil && n != nil
 //@   loop 1
 //@   step argument-i-is-operand-i: in[i] == getBinValue(getMapType, v, f) && forall(k, 0, len(in), k != i ==> in[k] == old(in[k]))
+
+// One frame per call (C08): the body of a script function called by a script (call) or through a function
+// value made by getFunc runs in a frame allocated by that very call — concurrent or re-entrant activations
+// never share locals.
+//@ lit call calls:runCfg (f) (next)
+//@   props C08
+//@   opt safety = off
+//@   opt loops = havoc
+//@   opt fn-values = pure
+//@   opt opaque-calls = *
+//@   opt opaque-havoc = none
+//@   requires [assume] f != nil && n != nil
+//@   ensures [local:nf] one-frame-per-call: fresh(nf)
+//@ lit getFunc calls:runCfg (in) (out)
+//@   props C08
+//@   opt safety = off
+//@   opt loops = havoc
+//@   opt fn-values = pure
+//@   opt opaque-calls = *
+//@   opt opaque-havoc = none
+//@   requires [assume] f != nil && n != nil && fr != nil
+//@   ensures [local:fr2] one-frame-per-call: fresh(fr2)
